@@ -686,13 +686,20 @@ func (s *Server) filterBatchLocked(next jmessages) jmessages {
 		// the sequencing barrier (see #78).
 		//
 		// Note, however, if it does NOT correspond to a known push-call, keep it
-		// in the batch so it can be serviced as an error.
+		// in the batch so it can be serviced as an error, unless push is enabled
+		// and the message has the shape of a reply.
 		id := string(fixID(req.ID))
 		if s.call[id] != nil {
 			rsp := s.call[id]
 			delete(s.call, id)
 			rsp.ch <- req
 			s.log("Received response for callback %q", id)
+		} else if s.allowP && req.M == "" && (req.E != nil || req.R != nil) {
+			// A reply that does not match a pending push-call arrived too late
+			// (the callback already ended), or is a duplicate or unsolicited.
+			// Discard it: answering would send the client an error bearing an
+			// ID that may belong to one of its own calls in flight.
+			s.log("Discarding response for unknown callback %q", id)
 		} else {
 			keep = append(keep, req)
 		}
